@@ -146,8 +146,10 @@ namespace vh
                 auto loc = rt->location();
                 e.line = loc.line; e.col = loc.col; e.path = loc.path;
             }
-            entries.push_back(e);
+            // a script that logs in an endless loop must not make the harness itself grow without bound
+            if (entries.size() < 20000) { entries.push_back(e); } else { dropped++; }
         }
+        size_t dropped = 0;
         // codes of all entries with level <= maxlevel, in order
         std::string codes(int maxlevel) const
         {
